@@ -150,3 +150,10 @@ Theorem C08_undecided_idempotent :
   NestProofs.verbatim (Undecided.undecided upd2 (NestSettle.to_tree ct (Undecided.undecided true t))) = Some (NestSettle.to_tree ct (Undecided.undecided true t)).
 Proof. exact UndecidedProofs.undecided_idempotent. Qed.
 Print Assumptions C08_undecided_idempotent.
+
+(* an `in` snapshot on a value that holds exactly the tested values produces no change (Model/CollReplace.v) *)
+From V Require Model.CollReplace Proofs.CollReplaceProofs.
+Theorem C08_coll_replace_settled :
+  forall (trim is_set : bool) (l : list Z), CollReplace.coll_replace false trim is_set l l = CollReplace.NoChange.
+Proof. exact CollReplaceProofs.settled_no_change. Qed.
+Print Assumptions C08_coll_replace_settled.
